@@ -517,6 +517,57 @@ func runC08(c *eng.Ctx) {
 	// ---- the leader's log of a family is dropped only when EVERY follower's group is drained --------------------------------------
 	c.Rule("GUARD", "replica.partition.IsExpire{every group drained}", func() { expiryNeedsEveryGroupDrained(c) })
 
+	// ---- one cached partition per log directory ---------------------------------------------------------------------------------------
+	c.Rule("LAYOUT", "replica.writeAheadLog.GetOrCreatePartition{cache key names what the log directory names}", func() {
+		f := c.Fn("replica.writeAheadLog.GetOrCreatePartition")
+		open := c.One(f, func(_ *eng.Prog, in ssa.Instruction) bool {
+			cl, ok := in.(*ssa.Call)
+			if !ok {
+				return false
+			}
+			u, ok := cl.Common().Value.(*ssa.UnOp)
+			if !ok {
+				return false
+			}
+			g, ok := u.X.(*ssa.Global)
+			return ok && g.Name() == "newFanOutQueue"
+		}, "newFanOutQueue(dirPath, …)")
+		dir := eng.CallArgs(open.Instr.(ssa.CallInstruction))[0]
+		inKey := map[*ssa.Parameter]bool{}
+		nf := 0
+		for _, b := range f.Blocks {
+			for _, in := range b.Instrs {
+				st, ok := in.(*ssa.Store)
+				if !ok {
+					continue
+				}
+				fa, ok := st.Addr.(*ssa.FieldAddr)
+				if !ok || !strings.HasPrefix(eng.FieldKeyOfAddr(fa), "replica.partitionKey.") {
+					continue
+				}
+				nf++
+				for _, pr := range f.Params[1:] {
+					if eng.DependsOn(st.Val, func(x ssa.Value) bool { return x == ssa.Value(pr) }) {
+						inKey[pr] = true
+					}
+				}
+			}
+		}
+		c.Check(nf >= 2, "key-built", nil, f, "the partition cache key is built in GetOrCreatePartition", fmt.Sprintf("%d key fields set", nf))
+		nd := 0
+		for _, pr := range f.Params[1:] {
+			pr := pr
+			if !eng.DependsOn(dir, func(x ssa.Value) bool { return x == ssa.Value(pr) }) {
+				continue
+			}
+			nd++
+			c.Check(inKey[pr], "key-has:"+pr.Name(), open.Instr, f,
+				"every parameter that selects the log directory ("+pr.Name()+") is part of the cache key: two leaders' logs of one family are different logs with their own sequence spaces",
+				"the directory depends on "+pr.Name()+" but the key under which the opened log is cached does not")
+		}
+		c.Check(nd >= 3, "dir-params", open.Instr, f, "the log directory is selected by shard, family time and leader", fmt.Sprintf("%d parameters", nd))
+	})
+
 	c.Observe("two replication streams into one follower partition could interleave ReplicaLog's check and Put (check-then-act across calls) — outside the per-channel quantifier, not armed")
 	c.Observe("remoteReplicator suspend: GetLiveNode and isSuspend CAS are not atomic with the online notification (possible lost wake-up) — liveness, not armed")
 }
